@@ -9,6 +9,7 @@ use std::hash::{Hash, Hasher};
 use std::{cmp, mem};
 
 /// HPACK encoder table
+#[cfg_attr(feature = "verif-hooks", derive(Clone))]
 #[derive(Debug)]
 pub struct Table {
     mask: usize,
@@ -38,6 +39,7 @@ pub enum Index {
     NotIndexed(Header),
 }
 
+#[cfg_attr(feature = "verif-hooks", derive(Clone))]
 #[derive(Debug)]
 struct Slot {
     hash: HashValue,
